@@ -164,6 +164,15 @@ def ob_history(n):
                 check(eq(persisted.get_value_for(K('newopt', subproject='')), ref['newopt']), 'a new option gets its default')
             else:
                 check(K('newopt', subproject='') not in persisted.options, 'an option absent from the re-read option file vanishes')
+        # ---- probe: what the persisted state does NEXT. A dropped override must really be gone (the subproject follows the parent again), a kept one must stay.
+        probe = copy.deepcopy(persisted)
+        other = 'c3' if ref['someopt'] != 'c3' else 'c1'
+        probe.set_from_configure_command({K('someopt'): other})
+        check(eq(probe.get_value_for('someopt', 'sub'), ref['aug'] if ref['aug'] is not None else other),
+              'after the history, the subproject follows a new parent value iff it has no override of its own')
+        probe.set_from_configure_command({K('yb', subproject=''): 'false' if ref['ybp'] else 'true'})
+        check(eq(probe.get_value_for('yb', 'sub'), ref['ybs'] if ref['ybs'] is not None else (not ref['ybp'])),
+              'after the history, the yielding option follows a new parent value iff it was not given its own')
     return h
 
 
